@@ -94,6 +94,53 @@ class SeqTheory:
                     patterns=[at(rep(s, n), i)]))
         return A
 
+    def derived(self):
+        """Consequences of the base axioms (each is proved from them by `prove_derived`, a ground obligation)."""
+        Q, E = self.sort, self.elem
+        ln, at, unit, cat, sl, eq = self.len, self.at, self.unit, self.cat, self.sl, self.eq
+        s, t = z3.Consts(f"s_{self.tag} t_{self.tag}", Q)
+        a, b, c, d = z3.Ints("a b c d")
+        D = {}
+        D["slice-all"] = FA([s, b], z3.Implies(b == ln(s), sl(s, 0, b) == s), patterns=[sl(s, 0, b)])
+        D["slice-empty"] = FA([s, a], z3.Implies(z3.And(0 <= a, a <= ln(s)), sl(s, a, a) == self.empty), patterns=[sl(s, a, a)])
+        D["slice-of-slice"] = FA([s, a, b, c, d], z3.Implies(z3.And(0 <= a, a <= b, b <= ln(s), 0 <= c, c <= d, d <= b - a),
+                                                          sl(sl(s, a, b), c, d) == sl(s, a + c, a + d)),
+                                 patterns=[sl(sl(s, a, b), c, d)])
+        D["cat-empty-right"] = FA([s], cat(s, self.empty) == s, patterns=[cat(s, self.empty)])
+        D["cat-empty-left"] = FA([s], cat(self.empty, s) == s, patterns=[cat(self.empty, s)])
+        D["slice-cat-left"] = FA([s, t, b], z3.Implies(b == ln(s), sl(cat(s, t), 0, b) == s), patterns=[sl(cat(s, t), 0, b)])
+        D["slice-cat-right"] = FA([s, t, a, b], z3.Implies(z3.And(a == ln(s), b == ln(s) + ln(t)), sl(cat(s, t), a, b) == t),
+                                  patterns=[sl(cat(s, t), a, b)])
+        return D
+
+    def prove_derived(self):
+        """-> [(name, result, seconds)]: each derived axiom proved from the base axioms via extensionality."""
+        import time
+        Q = self.sort
+        ln, at, unit, cat, sl, eq = self.len, self.at, self.unit, self.cat, self.sl, self.eq
+        s, t = z3.Consts(f"ps_{self.tag} pt_{self.tag}", Q)
+        a, b, c, d = z3.Ints("pa pb pc pd")
+        goals = {
+            "slice-all": eq(sl(s, 0, ln(s)), s),
+            "slice-empty": z3.Implies(z3.And(0 <= a, a <= ln(s)), eq(sl(s, a, a), self.empty)),
+            "slice-of-slice": z3.Implies(z3.And(0 <= a, a <= b, b <= ln(s), 0 <= c, c <= d, d <= b - a),
+                                         eq(sl(sl(s, a, b), c, d), sl(s, a + c, a + d))),
+            "cat-empty-right": eq(cat(s, self.empty), s),
+            "cat-empty-left": eq(cat(self.empty, s), s),
+            "slice-cat-left": eq(sl(cat(s, t), 0, ln(s)), s),
+            "slice-cat-right": eq(sl(cat(s, t), ln(s), ln(s) + ln(t)), t),
+        }
+        out = []
+        for name, g in goals.items():
+            sv = new_solver(10000)
+            for ax in self.axioms:
+                sv.add(ax)
+            sv.add(z3.Not(g))
+            t0 = time.time()
+            r = sv.check()
+            out.append((f"{self.tag}:{name}", str(r), time.time() - t0))
+        return out
+
 
 IS = SeqTheory(ISq, I, "i")
 VS = SeqTheory(VSq, Val, "v")
@@ -160,7 +207,13 @@ le_val = z3.Function("le_val", ISq, I)            # int.from_bytes(b, "little")
 be_val = z3.Function("be_val", ISq, I)            # int.from_bytes(b, "big")
 le_bytes = z3.Function("le_bytes", I, I, ISq)      # int.to_bytes(v, n, "little")
 be_bytes = z3.Function("be_bytes", I, I, ISq)
+fits_bytes = z3.Function("fits_bytes", I, I, B)     # 0 <= v < 256**n
 bigxor = z3.Function("bigxor", I, I, I)            # ^ on non-negative ints
+fits_signed = z3.Function("fits_signed", I, I, B)    # -(256**n)/2 <= v < (256**n)/2
+FROM_BYTES = {("little", False): le_val, ("big", False): be_val,
+              ("little", True): z3.Function("le_sval", ISq, I), ("big", True): z3.Function("be_sval", ISq, I)}
+TO_BYTES = {("little", False): le_bytes, ("big", False): be_bytes,
+            ("little", True): z3.Function("le_sbytes", I, I, ISq), ("big", True): z3.Function("be_sbytes", I, I, ISq)}
 xorseq = z3.Function("xorseq", ISq, ISq, ISq)      # point-wise xor of equal-length byte strings
 sha256 = z3.Function("sha256", ISq, ISq)
 hmac256 = z3.Function("hmac256", ISq, ISq, ISq)
@@ -172,7 +225,6 @@ seq_lower = z3.Function("seq_lower", ISq, ISq)
 seq_upper = z3.Function("seq_upper", ISq, ISq)
 find_ = z3.Function("find", ISq, ISq, I, I)        # s.find(sub, start)
 occ = z3.Function("occ", ISq, ISq, I, B)            # t occurs in s at offset o
-fits_bytes = z3.Function("fits_bytes", I, I, B)     # 0 <= v < 256**n
 
 
 def lib_axioms():
@@ -192,6 +244,14 @@ def lib_axioms():
     A.append(FA([s, t, i], z3.Implies(z3.And(ln(s) == ln(t), 0 <= i, i < ln(s)),
                                       at(xorseq(s, t), i) == bx(at(s, i), at(t, i))),
                 patterns=[at(xorseq(s, t), i)]))
+    # int.to_bytes / int.from_bytes are mutually inverse (assumed laws of CPython ints, cross-checked)
+    for key in FROM_BYTES:
+        fr, to = FROM_BYTES[key], TO_BYTES[key]
+        fits = fits_signed if key[1] else fits_bytes
+        A.append(FA([v, n], z3.Implies(z3.And(n >= 0, fits(v, n)), z3.And(ln(to(v, n)) == n, fr(to(v, n)) == v)),
+                    patterns=[to(v, n)]))
+        A.append(FA([s], z3.And(fits(fr(s), ln(s)), to(fr(s), ln(s)) == s), patterns=[fr(s)]))
+    A.append(FA([v, n], z3.Implies(fits_bytes(v, n), v >= 0), patterns=[fits_bytes(v, n)]))
     # case maps
     A.append(FA([v], lower_c(v) == z3.If(z3.And(65 <= v, v <= 90), v + 32, v), patterns=[lower_c(v)]))
     A.append(FA([v], upper_c(v) == z3.If(z3.And(97 <= v, v <= 122), v - 32, v), patterns=[upper_c(v)]))
@@ -240,7 +300,8 @@ def arith_axioms():
 
 
 def all_axioms():
-    return IS.axioms + VS.axioms + bx_axioms() + lib_axioms() + arith_axioms()
+    return IS.axioms + list(IS.derived().values()) + VS.axioms + list(VS.derived().values()) + bx_axioms() + \
+        lib_axioms() + arith_axioms()
 
 
 def new_solver(timeout_ms):
